@@ -611,6 +611,7 @@ pub fn run_check<C: Check>(
         }
         all.clear();
     }
+    let mut extra_no = 0u32;
     for (run, f, scn_v) in all.iter() {
         // report at most 2 replay files per clause
         let key = f.clause.clone();
@@ -649,7 +650,12 @@ pub fn run_check<C: Check>(
             "{}-{}-{}-{}.json",
             id,
             ctx.seed,
-            if *run >= u64::MAX - 1 { "x".to_string() } else { run.to_string() },
+            if *run >= u64::MAX - 1 {
+                extra_no += 1;
+                format!("x{}", extra_no)
+            } else {
+                run.to_string()
+            },
             sanitize(&clause)
         );
         let path = replay_dir.join(name);
